@@ -11,7 +11,8 @@ SPEC = dict(
                '_get_terminal_fragments gives prefixes to a/b/c and suffixes to x/y/z; fragment() (annotation input, list options, explicit '
                'loss rules) is proved to return the union of the four families for exactly the requested types on the peptide without its '
                'labile modifications, to raise ValueError exactly for interval / unknown-position peptides, and - when no per-residue masses '
-               'are supplied - to use the calculator mass of each one-residue piece; get_number numbers prefixes by end, suffixes by n - start, '
+               'are supplied - to use the calculator mass of each one-residue piece, and ProFormaAnnotation.split() is proved to return, in order, the '
+               'slice [i, i+1) of the peptide without labile modifications for every residue i (labile ones on the first piece only); get_number numbers prefixes by end, suffixes by n - start, '
                'immonium ions by position and rejects unknown types; Fragmenter.fragment is proved to be the same call with its own '
                'annotation, monoisotopic flag and cached masses. '
                'BOUNDED (labelled) on the real fragment()/Fragmenter: for 15 peptides x 10 ion-type subsets x 5 parameter tuples (+ random '
@@ -19,14 +20,14 @@ SPEC = dict(
                'additivity of the calculator over the one-residue pieces, which the deductive tier does not prove), the five alternative '
                'return types, scalar / string input forms, water / ammonia switches, regex loss applicability.',
     level_note='adjust_mass / adjust_mz are proved under C02, slice under C11, the span builders under C06 (assumed here by contract); '
-               'get_losses (regex + itertools.combinations), split(), mass() and serialize() are pure callees whose own behaviour is bounded only. '
+               'get_losses (regex + itertools.combinations), mass() and serialize() are pure callees whose own behaviour is bounded only. '
                'Two recorded findings restrict the mass-agreement clause for static terminal rules and isotope labels.',
     design_ref='DESIGN.md section 6, C04',
     technique='weakest-precondition VCs from the real AST of _build_fragments, the four _get_*_fragments, _get_terminal_fragments, '
               'fragment(), get_number and Fragmenter.fragment against sidecar contracts (bag-valued loop invariants over the five-deep loop '
               'nest), discharged by z3 / cvc5; bounded run-time contract check against an independent enumeration and the real mass '
               'calculator as labelled stand-in for calculator additivity and the alternative return types',
-    contracts=['frag'],
+    contracts=['frag', 'pieces'],
     bounded=[dict(name='C04-bounded', script='bounded/C04.py')],
     replay_finder='bounded/C04.py',
     explanation='enumeration and per-ion calculator values proved; additivity of the calculator and the projections bounded',
